@@ -256,11 +256,13 @@ type metaInfo struct {
 
 // a check the harness decides by itself (metamorphic Go-vs-Go streams)
 type goOnlyResult struct {
-	Stream     string   `json:"stream"`
-	N          int      `json:"n"`
-	Violations []string `json:"violations"` // one description per failing case
+	Stream     string         `json:"stream"`
+	N          int            `json:"n"`
+	Violations []string       `json:"violations"` // one description per failing case
 	Known      map[string]int `json:"known"`
-	Rule       string   `json:"rule"`
+	Rule       string         `json:"rule"`
+	// Distinct: how many of the N cases are distinct, non-trivial inputs (0 = not counted)
+	Distinct int `json:"distinct"`
 }
 
 var meta = &metaInfo{Distribution: map[string]map[string]int{}}
